@@ -203,30 +203,16 @@ Proof.
   - apply IH.
 Qed.
 
-(* GraphQL types never nest two non-null wrappers directly *)
-Fixpoint wf_ty (t : ty) : bool :=
-  match t with
-  | TNamed _ => true
-  | TList t' => wf_ty t'
-  | TNonNull (TNonNull _) => false
-  | TNonNull t' => wf_ty t'
-  end.
-
-Theorem interface_type_check_sound g ft : wf_ty ft = true -> forall it,
-  same_as_interface_type g ft it = Some true -> valid_impl_type g ft it = true.
+(* the engine's interface field-type check IS the specification's covariance rule *)
+Theorem interface_type_check_exact g ft : forall it,
+  same_as_interface_type g ft it = Some (valid_impl_type g ft it).
 Proof.
-  induction ft as [n|ft IH|ft IH]; intros Hw it; cbn [same_as_interface_type].
-  - destruct (ty_eqb (TNamed n) it) eqn:E; [intros _; now apply ty_eqb_valid|].
-    destruct it as [i|it|it]; try discriminate. cbn [valid_impl_type].
-    destruct (g_find g i) as [[| | | | |]|]; try discriminate.
-    intros H. inversion H as [H1]. rewrite H1. now rewrite orb_true_r.
-  - destruct (ty_eqb (TList ft) it) eqn:E; [intros _; now apply ty_eqb_valid|].
-    destruct it as [i|it|it]; try discriminate.
-    destruct (g_find g i) as [[| | | | |]|]; discriminate.
-  - destruct (ty_eqb (TNonNull ft) it) eqn:E; [intros _; now apply ty_eqb_valid|].
-    intros H. cbn [valid_impl_type].
-    assert (Hw' : wf_ty ft = true) by (destruct ft; cbn in Hw; [reflexivity|exact Hw|discriminate]).
-    destruct it as [i|it|it]; [now apply IH|now apply IH|].
-    exfalso. destruct ft as [n|ft'|ft']; cbn in H; try discriminate.
-    all: cbn in Hw; discriminate.
+  induction ft as [n|ft IH|ft IH]; intros it; cbn [same_as_interface_type].
+  - destruct (ty_eqb (TNamed n) it) eqn:E; [now rewrite (ty_eqb_valid g _ _ E)|].
+    destruct it as [i|it|it]; try reflexivity. cbn [ty_eqb] in E. cbn [valid_impl_type]. rewrite E. cbn [orb].
+    destruct (g_find g i) as [[| | | | |]|]; reflexivity.
+  - destruct (ty_eqb (TList ft) it) eqn:E; [now rewrite (ty_eqb_valid g _ _ E)|].
+    destruct it as [i|it|it]; try reflexivity. cbn [valid_impl_type]. apply IH.
+  - destruct (ty_eqb (TNonNull ft) it) eqn:E; [now rewrite (ty_eqb_valid g _ _ E)|].
+    cbn [valid_impl_type]. destruct it as [i|it|it]; apply IH.
 Qed.
